@@ -106,6 +106,10 @@ def clause_sets(rng, txns, n):
         if o is not None and isinstance(c, datetime.date) and c < o:
             o, c = c, o
         out.append((o, c, rng.chance(1, 2)))
+    # an empty period: OPEN and CLOSE on the same date (the balances as of that date, no activity)
+    same = rng.choice(cands[1:5])
+    out.append((same, same, False))
+    out.append((same, same, True))
     # every subset of the three clauses at least once
     o, c = sorted([rng.choice(cands), rng.choice(cands)])
     for uo in (None, o):
